@@ -14,7 +14,7 @@ TOK_ASSUMPTIONS = [
 class TokEngine(glue.GlueEngine):
     def __init__(self, pid, tier):
         super().__init__(pid, tier, stubs=False)
-        self.min_harness_bound = self.tb["FILTERED_STR_LEN"] + 12
+        self.min_harness_bound = max(self.tb["FILTERED_STR_LEN"] + 12, self.tb["instr_rows"] + 8)
 
     def unit(self, name, cfile, defs=(), replace=(), unwind=110, unwindset=None, checks="full", timeout=None, replay_fn=None,
              common=("vf_main.c", "libc_models.c"), ignore_props=(), exclude=None, only=None):
